@@ -164,6 +164,25 @@ def body(ctx, p):
     ctx.require(e2 <= KTOL * unit * amp * amp, "A Cov(Z,Z) A^T + B B^T != Cov(X,X): max error %.3g B(0) (tolerance %.3g, cond %.3g); %s nx=%d (internal %d) pixel=%.3g L0=%.3g" % (
         e2, KTOL * unit * amp * amp, cond, kind, p["nx"], nxi, ps, L0))
     ctx.classes["cond(Czz) 1e%d" % int(math.floor(math.log10(cond)))] += 1
+    # the first identity says A is the minimum-variance predictor of X from Z.  The excess residual variance of the code's A
+    # over the optimum is quadratic in its error, so it stays at rounding level even where cond(Czz) is 1e9, while a predictor
+    # built from a truncated / regularised inverse loses tens of per cent.  The optimum (Schur complement) comes from a Cholesky
+    # factorisation, which is backward stable at the scale of B(0).
+    try:
+        cf = linalg.cho_factor(Szz)
+        Sch = Sxx - Sxz @ linalg.cho_solve(cf, Sxz.T)
+        Jopt = float(np.trace(Sch))
+    except (linalg.LinAlgError, np.linalg.LinAlgError):
+        Jopt = -1.0
+    if Jopt > 0:
+        JA = float(np.trace(Sxx - A @ Sxz.T - Sxz @ A.T + A @ Szz @ A.T))
+        noise = 64 * 2.3e-16 * amp * amp * B0 * nxi / Jopt
+        ex = JA / Jopt - 1.0
+        ctx.residual("excess residual variance J(A)/J_opt - 1 over (1e-6 + evaluation noise)", abs(ex) / (1e-6 + noise), 1.0)
+        ctx.require(ex <= 1e-6 + noise, "A is not the minimum-variance predictor: E|X - A Z|^2 exceeds the conditional variance by %.3g (relative; cond(Czz) %.3g, %s nx=%d pixel=%.3g L0=%.3g)" % (ex, cond, kind, p["nx"], ps, L0))
+        ctx.require(ex >= -(1e-6 + noise), "harness: residual variance below the optimum by %.3g" % ex)
+    else:
+        ctx.classes["oracle_cholesky_failed"] += 1
     # cross-check with the attributes the anchor mentions
     if kind == "vk" or ref not in code_st:
         order = np.argsort(code_st)
